@@ -778,13 +778,13 @@ Qed.
 
 Definition op_wf (op : word) : bool :=
   match op with
-  | [1] | [2; _] | [3; _; _] | [4; _] | [5; _] => true
+  | [1] | [2; _] | [3; _; _] | [4; _] | [5; _] | [6; _] => true
   | _ => false
   end.
 
 Inductive shape : word -> Prop :=
 | sh1 : shape [1] | sh2 v : shape [2; v] | sh3 k h : shape [3; k; h]
-| sh4 k : shape [4; k] | sh5 k : shape [5; k].
+| sh4 k : shape [4; k] | sh5 k : shape [5; k] | sh6 w : shape [6; w].
 
 Lemma op_wf_shape op : op_wf op = true -> shape op.
 Proof.
@@ -904,7 +904,7 @@ Proof.
     destruct (one_act s a H Hd) as (I1 & A1 & Q1 & M1 & D1 & DA). cbn zeta in *.
     apply (finish_step s t (fst (astep s a)) (mx_of op (t_max t)) (dd_of op) S I1 A1 Q1); try congruence.
     rewrite Ed, <- D1. exact DA. }
-  apply op_wf_shape in Hw. destruct Hw as [|v|k h|k|k].
+  apply op_wf_shape in Hw. destruct Hw as [|v|k h|k|k|w].
   - apply (Hone (AFirst tid)); [reflexivity|cbn; congruence|reflexivity].
   - apply (Hone (ASettings v)); reflexivity.
   - assert (Ea : op_act s tid [3; k; h] =
@@ -918,6 +918,7 @@ Proof.
     + apply (Hone (ALeave t0)); [exact Ea|cbn; congruence|reflexivity].
     + apply Hnone; [cbn; congruence|reflexivity|exact Ea].
   - apply (Hone (ADead k)); [reflexivity|cbn; congruence|reflexivity].
+  - apply Hnone; [cbn; congruence|reflexivity|reflexivity].
 Qed.
 
 Lemma go_holds : forall ops s t tid, Sim s t -> forallb op_wf ops = true ->
